@@ -76,6 +76,15 @@ theorem inv_init (rows cols : Nat) (dx : K) (lc : Bool) (sv : Nat → K) :
     Inv (⟨rows, cols, dx, lc, none, none, none, none, sv⟩ : State K) :=
   ⟨by simp, by simp, by simp, by simp, rfl, rfl⟩
 
+/-- (TRANSLATED) every path of the constructors of the current source establishes coherence from scratch: analysed from NO
+    knowledge about the caches, the effect list of `RichData.__init__` / `Interferogram.__init__` is accepted -/
+theorem inits_wellBehaved : (Generated.C12.inits.all WellBehavedInit) = true := by decide
+
+/-- a freshly constructed object is coherent, whatever the arguments (ties `inv_init` to the source of `__init__`) -/
+theorem constructed_coherent (effs : List Eff) (h : effs ∈ Generated.C12.inits) (env : Env K) (s : State K) :
+    Inv (run env s effs) :=
+  wellBehavedInit_sound effs (List.all_eq_true.mp inits_wellBehaved effs h) env s
+
 /-- **coherence over any history**: after any sequence (any length, any interleaving, any arguments) of calls of
     methods of the current source — including bare reads of `x / y / r / t` — the state is coherent -/
 theorem inv_reachable (ops : List (List Eff × Env K))
